@@ -75,7 +75,10 @@ def markers(node, own: bool) -> list:
 
 
 def tree(func_ast) -> list:
-    return [{'p': enc_stmt(p), 'own': markers(s, True), 'all': markers(s, False)} for p, s in walk_stmts(func_ast)]
+    def sig(s):
+        t = getattr(s, 'target', None)
+        return type(s).__name__ + (':' + str(t) if isinstance(s, A.Assign) else '')
+    return [{'p': enc_stmt(p), 'own': markers(s, True), 'all': markers(s, False), 'sig': sig(s)} for p, s in walk_stmts(func_ast)]
 
 
 class Gen:
@@ -197,7 +200,7 @@ def record(job):
                     except Exception as e:      # noqa: BLE001
                         g = None
                         outcome = type(e).__name__
-                    edits, new, fw, changed = [], [], [], False
+                    edits, new, fw, changed, xr = [], [], [], False, []
                     if g is not None:
                         log = g.edits
                         if log is None:
@@ -205,12 +208,13 @@ def record(job):
                         edits = [{'bp': enc_block(e.block_path), 'index': e.index, 'removed': e.removed, 'inserted': e.inserted}
                                  for e in log.edits]
                         new = tree(g.ast)
+                        xr = [enc_stmt(p) for p in log.exprs_rewritten]
                         changed = g.format() != f.format()
                         for p, s in walk_stmts(f.ast):
                             fw.append({'p': enc_stmt(p), 'r': fw_json(g, StmtCursor(f.ast, p))})
                     recs.append({'prog': name, 'src': text, 'config': cname, 'where': -999 if where is None else where,
                                  'outcome': outcome, 'changed': changed, 'sites': spaths, 'refused': rpaths, 'cand': cand,
-                                 'edits': edits, 'old': old if g is not None else [], 'new': new, 'fw': fw})
+                                 'edits': edits, 'old': old if g is not None else [], 'new': new, 'fw': fw, 'xr': xr})
             # chains: a cursor taken before two strategies and forwarded across both
             try:
                 g1 = S.unroll_for(f, None, 1)
@@ -224,9 +228,140 @@ def record(job):
                 new2 = tree(g2.ast)
                 recs.append({'prog': name, 'src': text, 'config': 'chain:unroll_for;unroll_while', 'where': -999, 'outcome': 'ok',
                              'changed': True, 'sites': [], 'refused': [], 'cand': [], 'edits': [], 'old': old, 'new': new2,
-                             'fw': chain, 'chain': True})
+                             'fw': chain, 'chain': True, 'xr': []})
             except Exception:       # noqa: BLE001
                 pass
+    finally:
+        shutil.rmtree(work, ignore_errors=True)
+    return recs
+
+
+HELPERS = '''@fp.fpy
+def h1(a: fp.Real, m: fp.Real):
+    return a + m
+
+@fp.fpy
+def h2(a: fp.Real, m: fp.Real):
+    if a > m:
+        return a
+    return m
+
+@fp.fpy
+def hi(a: fp.Real, m: fp.Real):
+    with fp.INTEGER:
+        r = 0 * m
+    return r
+
+'''
+
+
+class EGen(Gen):
+    """programs whose call sites (candidates of `inline`) each carry a unique marker as last argument"""
+
+    def call(self, depth=0):
+        r = self.r
+        a = 'x' if depth >= 1 or r.random() < 0.6 else self.call(depth + 1)
+        return f'{r.choice(["h1", "h1", "h2"])}({a}, {self.mark()})'
+
+    def stmt(self, depth, ind):
+        r = self.r
+        pad = '    ' * ind
+        k = r.random()
+        if depth >= 2 or k < 0.3:
+            return [f'{pad}x = {self.call()}' + (f' + {self.call()}' if r.random() < 0.4 else '')]
+        if k < 0.5:
+            return [f'{pad}ys[hi(x, {self.mark()})] = {self.call()}']
+        if k < 0.6:
+            return [f'{pad}ys[hi(h1(x, {self.mark()}), {self.mark()})] = ys[hi(x, {self.mark()})] + {self.call()}']
+        if k < 0.7:
+            return [f'{pad}if {self.call()} > 3:'] + self.block(depth + 1, ind + 1, r.randint(1, 2)) + [f'{pad}else:'] + self.block(depth + 1, ind + 1, 1)
+        if k < 0.78:
+            c = self.var()
+            return ([f'{pad}{c} = 0', f'{pad}while {c} < {self.call()}:'] + self.block(depth + 1, ind + 1, 1)
+                    + [f'{pad}    with fp.REAL:', f'{pad}        {c} = {c} + 100000'])
+        if k < 0.9:
+            return [f'{pad}for {self.var()} in range(2):'] + self.block(depth + 1, ind + 1, r.randint(1, 2))
+        return [f'{pad}with fp.IEEEContext(5, 16):'] + self.block(depth + 1, ind + 1, r.randint(1, 2))
+
+    def program(self, name):
+        self.m, self.v = 1000, 0
+        body = self.block(0, 1, self.r.randint(2, 5))
+        return HELPERS + '\n'.join(['@fp.fpy', f'def {name}(x: fp.Real, xs: list[fp.Real]):', '    ys = [x, x]'] + body
+                                    + [f'    return {self.call()} + ys[0]'])
+
+
+def call_marks(func_ast):
+    """(path, marker) of every call to an FPy function, in walk order"""
+    from fpy2.function import Function
+    from fpy2.transform.path import walk_exprs
+    out = []
+    for p, e in walk_exprs(func_ast):
+        if isinstance(e, A.Call) and isinstance(e.fn, Function) and e.args and isinstance(e.args[-1], A.Integer):
+            out.append((p, int(e.args[-1].val)))
+    return out
+
+
+def mark_of(node) -> int:
+    from fpy2.function import Function
+    if isinstance(node, A.Call) and isinstance(node.fn, Function) and node.args and isinstance(node.args[-1], A.Integer):
+        return int(node.args[-1].val)
+    return 0
+
+
+def record_expr(job):
+    from fpy2.strategies import ExprCursor
+    seed, lo, hi = job
+    work = tempfile.mkdtemp(prefix='verif-c19e-')
+    recs = []
+    S = fp.strategies
+    try:
+        for i in range(lo, hi):
+            rng = random.Random(seed * 6151 + i)
+            name = f'c19e{i}'
+            text = EGen(rng).program(name)
+            funcs, rej = gen_prog.load_programs({name: text}, work, f'c19e_{seed}_{i}')
+            if name not in funcs:
+                continue
+            f = funcs[name]
+            old = tree(f.ast)
+            cm = call_marks(f.ast)
+            for (cname, kw) in (('inline', {}), ('inline[one-level]', {'recursive': False})):
+                try:
+                    sites = S.sites(S.inline, f)
+                    refused = [c for c, _ in S.refusals(S.inline, f)]
+                except Exception:       # noqa: BLE001
+                    continue
+                marks = [mark_of(c.resolve()) for c in sites]
+                rmarks = [mark_of(c.resolve()) for c in refused]
+                k = len(marks)
+                for where in [None, -1] + list(range(k + 1)):
+                    try:
+                        g = S.inline(f, where, **kw)
+                        outcome = 'ok'
+                    except Exception as e:      # noqa: BLE001
+                        g = None
+                        outcome = type(e).__name__
+                    gone, efw = [], []
+                    if g is not None:
+                        left = {m for _, m in call_marks(g.ast)}
+                        gone = sorted(m for _, m in cm if m not in left)
+                        for pth, m in cm:
+                            try:
+                                c2 = g.forward(ExprCursor(f.ast, pth))
+                                efw.append({'m': m, 'r': mark_of(c2.resolve()) if isinstance(c2, ExprCursor) else -2})
+                            except TransformReferenceError:
+                                efw.append({'m': m, 'r': -1})
+                    recs.append({'kind': 'expr', 'prog': name, 'src': text, 'config': cname, 'where': -999 if where is None else where,
+                                 'outcome': outcome, 'marks': marks, 'rmarks': rmarks, 'cand': [m for _, m in cm], 'gone': gone,
+                                 'efw': efw})
+                    # the statement-level forwarding of the same application
+                    if g is not None and g.edits is not None:
+                        edits = [{'bp': enc_block(e.block_path), 'index': e.index, 'removed': e.removed, 'inserted': e.inserted}
+                                 for e in g.edits.edits]
+                        fw = [{'p': enc_stmt(p), 'r': fw_json(g, StmtCursor(f.ast, p))} for p, _ in walk_stmts(f.ast)]
+                        recs.append({'prog': name, 'src': text, 'config': cname + ':stmts', 'where': -999, 'outcome': 'ok',
+                                     'changed': True, 'sites': [], 'refused': [], 'cand': [], 'edits': edits, 'old': old,
+                                     'new': tree(g.ast), 'fw': fw, 'xr': [enc_stmt(p) for p in g.edits.exprs_rewritten]})
     finally:
         shutil.rmtree(work, ignore_errors=True)
     return recs
@@ -248,6 +383,9 @@ def run(tier: str) -> int:
     step = 10
     jobs = [(core.seed(), i, min(n, i + step)) for i in range(0, n, step)]
     recs = [r for rs in core.pool_map(record, jobs, chunksize=1) for r in rs]
+    ne = 12 if tier == 'quick' else 300
+    ejobs = [(core.seed(), i, min(ne, i + 3)) for i in range(0, ne, 3)]
+    recs += [r for rs in core.pool_map(record_expr, ejobs, chunksize=1) for r in rs]
     for i, r in enumerate(recs):
         r['tid'] = i
     # chain records skip the model comparison (no single edit log): mark so the spec only checks descent
@@ -261,15 +399,17 @@ def run(tier: str) -> int:
     for mm in out.mismatches:
         r = by[mm[0]]
         rep.mismatch({'clause': mm[1], 'config': r['config']},
-                     {'src': r['src'], 'config': r['config'], 'where': r['where'], 'outcome': r['outcome'], 'sites': r['sites'],
-                      'edits': r['edits'], 'fw': r['fw'][:12], 'clause': mm[1]})
+                     {'src': r['src'], 'config': r['config'], 'where': r['where'], 'outcome': r['outcome'],
+                      'sites': r.get('sites', r.get('marks')), 'edits': r.get('edits', r.get('gone')),
+                      'fw': r.get('fw', r.get('efw'))[:12], 'clause': mm[1]})
     rep.cov.update({'evaluations': len(recs), 'traces_validated_against_impl': len(recs),
-                    'distinct_nontrivial': sum(1 for r in recs if r['edits']),
-                    'cursors_forwarded': sum(len(r['fw']) for r in recs),
+                    'distinct_nontrivial': sum(1 for r in recs if r.get('edits') or r.get('gone')),
+                    'cursors_forwarded': sum(len(r.get('fw', r.get('efw'))) for r in recs),
+                    'expression_sited_applications': sum(1 for r in recs if r.get('kind') == 'expr'),
                     'rule': 'seeded marker programs x 8 aimable strategy configurations x where in {None, -1, 0..k}; every statement cursor of '
                             'the old program forwarded; non-trivial = the application produced edits'})
     for r in recs[:: max(1, len(recs) // 3)][:3]:
-        rep.sample({k: r[k] for k in ('src', 'config', 'where', 'outcome', 'sites', 'edits')})
+        rep.sample({k: r.get(k) for k in ('src', 'config', 'where', 'outcome', 'sites', 'edits', 'marks', 'gone')})
     return rep.finish()
 
 
